@@ -374,3 +374,67 @@ func joinSorted(m map[string]bool) string {
 	sort.Strings(xs)
 	return strings.Join(xs, ",")
 }
+
+// errorReachesErrorReturn: the error result of c is nil-tested and an error return is reachable from the
+// non-nil edge (weaker than errorIsChecked: the non-nil edge may tolerate some error kinds).
+func errorReachesErrorReturn(c *ssa.Call) (bool, string) {
+	if ok, why := errorIsChecked(c); ok {
+		return ok, why
+	}
+	sig := c.Call.Signature()
+	idx := errResultIndex(sig)
+	var ev ssa.Value
+	if sig.Results().Len() == 1 {
+		ev = c
+	} else {
+		for _, ref := range *c.Referrers() {
+			if e, ok := ref.(*ssa.Extract); ok && e.Index == idx {
+				ev = e
+			}
+		}
+	}
+	if ev == nil {
+		return false, "error result discarded"
+	}
+	for _, ref := range *ev.Referrers() {
+		bin, ok := ref.(*ssa.BinOp)
+		if !ok {
+			continue
+		}
+		v, trueNonNil, ok := nilTest(bin)
+		if !ok || v != ev {
+			continue
+		}
+		for _, r2 := range *bin.Referrers() {
+			iff, ok := r2.(*ssa.If)
+			if !ok {
+				continue
+			}
+			idx := 1
+			if trueNonNil {
+				idx = 0
+			}
+			seen := map[*ssa.BasicBlock]bool{}
+			var dfs func(b *ssa.BasicBlock, d int) bool
+			dfs = func(b *ssa.BasicBlock, d int) bool {
+				if seen[b] || d > 8 {
+					return false
+				}
+				seen[b] = true
+				if ret, ok := lastInstr(b).(*ssa.Return); ok {
+					return classifyReturn(ret) == RetError
+				}
+				for _, s := range b.Succs {
+					if dfs(s, d+1) {
+						return true
+					}
+				}
+				return false
+			}
+			if dfs(iff.Block().Succs[idx], 0) {
+				return true, "nil-tested; an error return is reachable from the non-nil edge"
+			}
+		}
+	}
+	return false, "error result is never turned into an error return"
+}
